@@ -281,7 +281,7 @@ PROPS = {
                      "H collision-free on the strings involved"],
     ),
     "C20": dict(
-        families=[dict(name="oldschema")],
+        families=[dict(name="oldschema"), dict(name="race", race=True)],
         level_text="Theorems C20_decode_equal (old and current encodings decode to the same manifest), "
                    "C20_rewrite_simulates (rewriting ANY selection of a tree's manifests in the old schema, under their "
                    "own digests with parents re-pointed, gives a cache simulated by the original), C20_checkout_equal, "
